@@ -321,9 +321,18 @@ def _mp_tile_worker(queue, done_event, pio, _kwargs):
                 warnings.simplefilter("ignore")
                 image, desc = queue.get(True, timeout=1)
         except Empty:
-            if done_event.is_set():
+            if not done_event.is_set():
+                continue
+
+            # The done flag is only raised after every item has been flushed
+            # into the queue, but an item may have arrived between our timeout
+            # and our look at the flag. One more non-blocking look settles it.
+            try:
+                with warnings.catch_warnings():
+                    warnings.simplefilter("ignore")
+                    image, desc = queue.get(False)
+            except Empty:
                 break
-            continue
 
         if image.get_parity_sign() != tile_parity_sign:
             image.flip_parity()
